@@ -30,6 +30,8 @@ type recorder struct {
 	rnd    *rand.Rand
 	rich   bool
 	panics int
+	// withBytes: the raw output bytes travel with every successful event (C15: the specification's grammar reads them)
+	withBytes bool
 }
 
 func (r *recorder) emit(e ev) {
@@ -313,7 +315,7 @@ func (r *recorder) execPatch(docText []byte, doc *jsonread.Value, o lib.Opts, n 
 		patch := []byte("[" + strings.Join(texts, ",") + "]")
 		out, aerr, derr, pan := guardedApply(docText, patch, o)
 		e := ev{"ev": "op", "op": op.wire(), "ok": false, "post": jsonread.Null().Wire(),
-			"errc": lib.ErrClass{}, "panic": pan != "", "decode": derr != nil, "outnil": out == nil, "malformed": false}
+			"errc": lib.ErrClass{}, "panic": pan != "", "decode": derr != nil, "outnil": out == nil, "malformed": false, "bytes": []int{}}
 		if pan != "" {
 			r.panics++
 		}
@@ -325,6 +327,9 @@ func (r *recorder) execPatch(docText []byte, doc *jsonread.Value, o lib.Opts, n 
 					e["malformed"] = true
 				} else {
 					e["ok"], e["post"] = true, v.Wire()
+					if r.withBytes {
+						e["bytes"] = jsonread.BytesWire(out)
+					}
 					cur = v
 					stop = false
 				}
@@ -758,13 +763,14 @@ func main() {
 	maxOps := flag.Int("maxops", 10, "longest patch")
 	plain := flag.Bool("plain", false, "plain member names only")
 	caseFile := flag.String("case", "", "re-execute the inputs of this replay file instead of generating")
+	withBytes := flag.Bool("bytes", false, "record the raw output bytes of successful Apply calls")
 	flag.Parse()
 	f, err := os.Create(*out)
 	if err != nil {
 		fmt.Fprintln(os.Stderr, "record:", err)
 		os.Exit(2)
 	}
-	r := &recorder{w: bufio.NewWriterSize(f, 1<<20), rnd: rand.New(rand.NewSource(*seed*7919 + 17)), rich: !*plain}
+	r := &recorder{w: bufio.NewWriterSize(f, 1<<20), rnd: rand.New(rand.NewSource(*seed*7919 + 17)), rich: !*plain, withBytes: *withBytes}
 	if *caseFile != "" {
 		if err := r.replayCase(*caseFile); err != nil {
 			fmt.Fprintln(os.Stderr, "record:", err)
